@@ -398,6 +398,54 @@ func checkMarshaled(r *Run, rc *RuleCtx, T *types.Named, sumFn, resetFn *ssa.Fun
 		rc.Fail("hmac fields", "marshaled/ipad/opad/inner/outer not found")
 		return
 	}
+	// once the saved states are in the pads (marshaled is set on this path) Reset never treats them as key pads
+	// again: it does not write a pad into a hash, marshal anew, or store the pads or the flag
+	if resetFn != nil {
+		p := r.P
+		rep := false
+		q := &PathQuery{P: p, Fn: resetFn}
+		q.Step = func(in ssa.Instruction, deferred bool, st uint64, c *PathCtx) (uint64, bool) {
+			if rep {
+				return st, false
+			}
+			on := false
+			for _, pc := range c.PathConds() {
+				if valueIsLoadOfField(pc.Cond, mF) && pc.Val {
+					on = true
+				}
+			}
+			if !on {
+				return st, false
+			}
+			bad := ""
+			switch x := in.(type) {
+			case *ssa.Store:
+				if fa, ok := x.Addr.(*ssa.FieldAddr); ok {
+					if f := fieldOfAddr(fa); f == ipadF || f == opadF || f == mF {
+						bad = "store to " + f.Name()
+					}
+				}
+			case *ssa.Call:
+				if x.Call.IsInvoke() {
+					switch x.Call.Method.Name() {
+					case "MarshalBinary":
+						bad = "MarshalBinary"
+					case "Write":
+						if len(x.Call.Args) == 1 && (valueIsLoadOfField(x.Call.Args[0], ipadF) || valueIsLoadOfField(x.Call.Args[0], opadF)) {
+							bad = "Write of a pad"
+						}
+					}
+				}
+			}
+			if bad != "" {
+				rep = true
+				rc.ViolationPath(resetFn, instrPos(in), bad+" on the marshaled path of Reset", "with the flag set the pads hold saved hash states, not key pads: Reset goes on into the first-time path, feeds a state blob to the hash as if it were the pad and saves that as the new state - every MAC after the second Reset is wrong", c.Witness(resetFn, in))
+			}
+			return st, false
+		}
+		q.Run()
+		rc.Instance("Reset|marshaled path ends at the restore", true, nil)
+	}
 	hashOf := func(v ssa.Value) *types.Var {
 		// typeassert of a load of inner/outer
 		if ta, ok := v.(*ssa.TypeAssert); ok {
